@@ -5,7 +5,7 @@ PROP = 'C07'
 BUILDS = ['safe', 'unsafe']
 RULE = ('storages arr|vec (both builds) and uarr|uvec (build with the `unsafe` feature); sizes 1…9; array capacities every '
         'value N+1 … 3N (capacity = N+1 and capacity < 2N make the rewind overlap), vector multiples 2…4; element types '
-        'u8/u32/u64; one deterministic sweep case per (storage, size, capacity) with 3·cap+2 distinct values plus random '
+        'u8/u32/u64 and 12-/24-byte structs; one deterministic sweep case per (storage, size, capacity) with 3·cap+2 distinct values plus random '
         'cases with 0 … 16·cap (quick) / 40·cap (thorough) pushes (distinct counters, random values incl. 0 and MAX, or a '
         'two-letter alphabet); `push` is answered with size/empty/filled/first/last/slice/vec/arr after EVERY push, single '
         'accessors and arr::<N-1|N|N+1> interleaved; malformed stream (model-only, no spec): SIZE = 0, CAPACITY <= SIZE, '
@@ -23,8 +23,8 @@ TRUSTED_EXTRA = ['C07: the abstract-machine meaning of the unsafe blocks is mode
 # once that fix is in /repo, and mark F1 as fixed in known_findings.json.
 VEC = 'vec'
 SIZES = list(range(1, 10))
-TYPES = ['u8', 'u32', 'u64']
-TMAX = {'u8': 2 ** 8 - 1, 'u32': 2 ** 32 - 1, 'u64': 2 ** 64 - 1}
+TYPES = ['u8', 'u32', 'u64', 'w12', 'w24']    # w12 / w24: 12- and 24-byte elements (size does not divide 16)
+TMAX = {'u8': 2 ** 8 - 1, 'u32': 2 ** 32 - 1, 'u64': 2 ** 64 - 1, 'w12': 2 ** 32 - 4, 'w24': 2 ** 64 - 4}
 MALFORMED_ARR = [(0, 0), (0, 1), (0, 2), (12, 12), (12, 11), (13, 13)]
 MALFORMED_UARR = [(12, 12), (12, 11)]          # only what the constructor rejects; anything else would be UB
 MALFORMED_VEC = [(0, 2), (0, 0), (3, 0), (1, 1), (2, 1), (5, 1)]
@@ -89,7 +89,7 @@ def menu():
 def sweep(rng, factor):
     """one deterministic-length case per instantiation, element types rotating"""
     for i, (kind, n, c) in enumerate(menu()):
-        ty = TYPES[(i + n) % 3]
+        ty = TYPES[(i + n) % len(TYPES)]
         cap = cells(kind, n, c)
         yield mk_case(rng, kind, n, c, ty, factor * cap + 2, 'counter', build_of(rng, kind), extras=False, tags=('sweep',))
 
